@@ -47,6 +47,7 @@ structure Tables where
   descRaw : Bool
   toolOmitsDirectives : Bool
   assureOnce : Bool
+  inputNullTakesDefault : Bool
   dirLoopByVisited : Bool
   typeLookupFindsDirectives : Bool
   argPosAfterToken : Bool
